@@ -11,8 +11,11 @@ from harness import nd
 from harness.h_build import Pair
 
 NP = {"utf8": np.array(["1", "2", "6"]), "bool": np.array([True, False, True]), "int64": np.array([1, 2, 3]),
-      "float64": np.array([1.0, 2.0, 3.0])}
-DT = {"AUtf8": "utf8", "ANUtf8": "nutf8", "ABool": "bool", "ANBool": "nbool", "AInt": "int64", "AFloat": "float64", "ANInt": "nint64"}
+      "float64": np.array([1.0, 2.0, 3.0]),
+      "uint8": np.array([1, 2, 3], dtype=np.uint8), "uint32": np.array([1, 2, 3], dtype=np.uint32), "int8": np.array([1, 2, 3], dtype=np.int8),
+      "float32": np.array([1.0, 2.0, 3.0], dtype=np.float32)}
+DT = {"AUtf8": "utf8", "ANUtf8": "nutf8", "ABool": "bool", "ANBool": "nbool", "AInt": "int64", "AFloat": "float64", "ANInt": "nint64",
+      "AUInt8": "uint8", "AUInt32": "uint32", "AInt8": "int8", "AFloat32": "float32", "ANUInt8": "nuint8", "ANFloat": "nfloat64"}
 PY = {"PInt": 1, "PFloat": 1.5, "PBool": True, "PStr": "a"}
 
 
